@@ -2,7 +2,7 @@ SPECIFICATION Spec
 CONSTANTS
   Keys = {"1", "1.0", "1px", "qa", "a", "sa", "red", "#f00"}
   Keys3 = {"1", "qa", "#f00"}
-  MaxOps = 5
+  MaxOps = 4
 VIEW ViewM
 INVARIANTS InvKeysUnique InvLaws InvRun
 CHECK_DEADLOCK FALSE
